@@ -120,7 +120,7 @@ Section WithCase.
   Definition m_sdcorr (p : list (id * Q)) :=
     sdcorr_params Q 0%Q Qmult Qdiv q_sqrt_t q_is0 p n_coll.
   Definition m_scale (L : qmatrix) :=
-    scale_matrix Q 0%Q Qplus Qminus Qmult Qdiv (fun _ => n_e01 c) Qabs 10%Q (n_tenth c) L.
+    scale_matrix Q 0%Q Qplus Qminus Qmult Qdiv (fun _ => n_e01 c) 10%Q (n_tenth c) L.
   Definition m_descale (U Sc : qmatrix) := descale_matrix Q 0%Q Qplus Qmult (fun _ => n_e01 c) U Sc.
 
   Definition blocks_of (p : list (id * Q)) (r : coll id) : list qmatrix :=
@@ -154,7 +154,7 @@ Section WithCase.
           flat_map (fun kv => match last_pos Ms (fst kv) with
                               | Some (i, j) => if memp (fst kv) (n_free c) then tag (qclose (qget D i j) (snd kv)) 36 else []
                               | None => [] end) (n_from_ucp c) ++
-          (* guard fact: a negative entry below the diagonal of the Cholesky factor *)
+          (* fact (no longer a guard): a negative entry below the diagonal of the Cholesky factor *)
           tag (negb (existsb (fun i => existsb (fun j => (j <? i) && negb (Qle_bool 0 (qget L i j)))
                                                (seq 0 (length L))) (seq 0 (length L)))) 241
         ) groups ++
